@@ -1,6 +1,7 @@
 import HapVerif.Model.C11
 import HapVerif.Generated.Facts
 import HapVerif.Props.C02Pair
+import HapVerif.Drv.C02
 /-!
 # C11 — no needless reloads (slot arithmetic of `alignSlots`)
 
@@ -9,6 +10,24 @@ empty slots, a slot count that is a multiple of `backend-server-slots-increment`
 slot — for every endpoint list and every setting.  The "fits ⇒ no reload" and "no-op ⇒ no reload"
 clauses are theorems about `checkBackendPair` (see `Props/C02.lean`, shared model) and are
 searched on the implementation by the `fits`/`noop` cases of the harness.
+
+Second part — the STORE of several backends and whole histories (`Model/C11.lean`: `Sys`, `Step`, `step`,
+`run`).  An update batch re-creates a subset of the backends, the others are bystanders; the update reloads
+iff some pair asks for it or something outside the backends changed, and then `alignSlots` walks over ALL
+items.  For ALL histories:
+* (a) `reload_aligns_all` (+ `reload_aligns_store`, `boot_aligns_all`): after every step that reloads, every
+  dynamic backend — bystanders included — has, in the files HAProxy loads, at least `slots-min-free` empty slots
+  and a positive slot count that is a multiple of the increment; `files_follow_store` (the `BackendChanged`
+  flag makes writeConfig rewrite the shard file of a padded bystander);
+* (b) `noreload_keeps_slots`, `slots_are_last_reload`: dynamic updates never change a slot count, so at every
+  point the slot count of a backend is what the last reload left;
+* (c) `fits_stays_dynamic_history`, `scale_up_after_reload`: what fits in those slots is applied without
+  reload, also right after a reload caused by ANOTHER backend or by a change outside the backends;
+* (d) `noop_history`: re-creating any set of backends with identical effective content never reloads;
+* `single_backend`: the one-backend history mode is the special case;
+* `seeded_only_recreated_starves_bystander`, `no_flag_leaves_stale_shard_file`: kernel-checked witnesses
+  that walking only the re-created backends (seeded defect C11e), or dropping `BackendChanged`, breaks (a).
+The side condition `Step.wf` (a converter never emits a disabled endpoint) is what a history is.
 -/
 namespace HapVerif.C11
 open HapVerif.C02
@@ -123,5 +142,565 @@ theorem noop_no_reload (old cur : Back) (same : Bool) (sc : List Resp) (hd : cur
     (hC : hasDupTarget cur.eps = false) (hn : C02Pair.noopB old.eps cur.eps = true) :
     (checkBackendPair old cur same sc).updated = same ∧ (checkBackendPair old cur same sc).cmds = [] :=
   C02Pair.noop_no_reload old cur same sc hd hr hlen hO hC hn
+
+/-! ## The store -/
+
+theorem pairAll_getElem? (s : Sys) (r : List (Option (List EP))) (i : Nat) :
+    (pairAll s r)[i]? = s[i]?.map (fun c => pairCell c (r.getD i none)) := by
+  induction s generalizing r i with
+  | nil => simp [pairAll]
+  | cons c cs ih =>
+    cases r with
+    | nil => cases i with
+      | zero => simp [pairAll]
+      | succ j => simp [pairAll, ih]
+    | cons x xs => cases i with
+      | zero => simp [pairAll]
+      | succ j => simp [pairAll, ih]
+
+theorem pairAll_mem {s : Sys} {r : List (Option (List EP))} {p : Mid} (h : p ∈ pairAll s r) :
+    ∃ i c, s[i]? = some c ∧ p = pairCell c (r.getD i none) := by
+  obtain ⟨i, hi⟩ := List.getElem?_of_mem h
+  rw [pairAll_getElem?] at hi
+  cases hs : s[i]? with
+  | none => rw [hs] at hi; cases hi
+  | some c => rw [hs] at hi; simp at hi; exact ⟨i, c, hs, hi.symm⟩
+
+/-- equal apart from the endpoint list -/
+def cfgEq (a b : Back) : Prop :=
+  a.dynUpdate = b.dynUpdate ∧ a.resolver = b.resolver ∧ a.cookiePreserve = b.cookiePreserve ∧
+  a.initialWeight = b.initialWeight ∧ a.naming = b.naming
+
+theorem back_ext {a b : Back} (h : cfgEq a b) (he : a.eps = b.eps) : a = b := by
+  cases a; cases b; simp only [cfgEq] at h; simp_all
+
+/-- adding empty endpoints touches nothing but the endpoint list -/
+theorem foldl_addEmpty_cfg (l : List Nat) (b : Back) : cfgEq (l.foldl (fun b _ => addEmpty b) b) b := by
+  induction l generalizing b with
+  | nil => simp [cfgEq]
+  | cons x xs ih =>
+    simp only [List.foldl_cons]
+    have := ih (addEmpty b)
+    simpa [cfgEq, addEmpty] using this
+
+theorem alignSlots_cfg (b : Back) (m k : Nat) : cfgEq (alignSlots b m k) b := by
+  unfold alignSlots
+  split
+  · simp [cfgEq]
+  · simp only []
+    split
+    · exact foldl_addEmpty_cfg _ _
+    · have h1 := foldl_addEmpty_cfg (List.range (m - (b.eps.filter (·.isEmpty)).length)) b
+      generalize (List.range (m - (b.eps.filter (·.isEmpty)).length)).foldl (fun b _ => addEmpty b) b = b1 at h1
+      have h2 := foldl_addEmpty_cfg (List.range ((if k < 1 then 1 else k) - (((b1.eps.length + (if k < 1 then 1 else k) - 1) % (if k < 1 then 1 else k)) + 1))) b1
+      simp only [cfgEq] at h1 h2 ⊢
+      obtain ⟨a1, a2, a3, a4, a5⟩ := h1
+      obtain ⟨c1, c2, c3, c4, c5⟩ := h2
+      exact ⟨c1.trans a1, c2.trans a2, c3.trans a3, c4.trans a4, c5.trans a5⟩
+
+theorem alignSB_dyn (b : SB) : (alignSB b).back.dynUpdate = b.back.dynUpdate := (alignSlots_cfg _ _ _).1
+
+/-- `alignSlots` only appends: an item whose slot count it leaves alone is left alone altogether -/
+theorem alignSB_eq_of_slots (b : SB) (h : (alignSB b).slots = b.slots) : alignSB b = b := by
+  have hb : alignSlots b.back b.minFree b.block = b.back := by
+    apply back_ext (alignSlots_cfg _ _ _)
+    cases hd : b.back.dynUpdate with
+    | false => rw [align_static _ _ _ hd]
+    | true =>
+      have h2 := (align_post b.back b.minFree b.block hd).2
+      have h3 : (alignSlots b.back b.minFree b.block).eps.length = b.back.eps.length := h
+      rw [← h3, List.take_length] at h2
+      exact h2
+  cases b
+  simp only [alignSB] at hb ⊢
+  rw [hb]
+
+/-- **align_post, lifted to an item of the store** -/
+theorem alignSB_post (b : SB) (hd : b.back.dynUpdate = true) :
+    alignPost (alignSB b).back.eps (alignSB b).minFree (alignSB b).block = true :=
+  (align_post b.back b.minFree b.block hd).1
+
+/-- the settings of a backend: what a history never changes -/
+def cfgOf (b : SB) : Bool × Bool × Bool × Int × Nat × Nat × Nat :=
+  (b.back.dynUpdate, b.back.resolver, b.back.cookiePreserve, b.back.initialWeight, b.minFree, b.block, b.shard)
+
+theorem alignSB_cfg (b : SB) : cfgOf (alignSB b) = cfgOf b := by
+  obtain ⟨h1, h2, h3, h4, _⟩ := alignSlots_cfg b.back b.minFree b.block
+  simp only [cfgOf, alignSB, h1, h2, h3, h4]
+
+theorem pairCell_cfg (c : Cell) (r : Option (List EP)) : cfgOf (pairCell c r).sb = cfgOf c.sb := by
+  cases r with
+  | none => rfl
+  | some cur =>
+    simp only [pairCell]
+    split <;> rfl
+
+theorem alignMid_cfg (v : Variant) (m : Mid) : cfgOf (alignMid v m).sb = cfgOf m.sb := by
+  unfold alignMid
+  split
+  · rfl
+  · exact alignSB_cfg _
+
+/-- a backend that is not flagged after the pair stage is the committed one, file included -/
+theorem pairCell_unflagged (c : Cell) (r : Option (List EP)) (h : (pairCell c r).flag = false) :
+    (pairCell c r).sb = c.sb ∧ (pairCell c r).file = c.file := by
+  cases r with
+  | none => exact ⟨rfl, rfl⟩
+  | some cur =>
+    simp only [pairCell] at h ⊢
+    split
+    · exact ⟨rfl, rfl⟩
+    · next hs => simp [hs] at h
+
+theorem pairCell_file (c : Cell) (r : Option (List EP)) : (pairCell c r).file = c.file := by
+  cases r with
+  | none => rfl
+  | some cur => simp only [pairCell]; split <;> rfl
+
+/-- an accepted dynamic update keeps the slot count (all return paths of `checkBackendPair`) -/
+theorem cbp_updated_len (old cur : Back) (same : Bool) (sc : List Resp) (hE : C02Pair.AllEnabled cur.eps)
+    (hu : (checkBackendPair old cur same sc).updated = true) :
+    (checkBackendPair old cur same sc).cur.length = old.eps.length := by
+  revert hu
+  apply C02Pair.cbp_cases old cur same sc (fun o => o.updated = true → o.cur.length = old.eps.length)
+  · intro _ h; cases h
+  · intro hl _ _ _
+    obtain ⟨h1, _, _⟩ := foldl_addEmpty (List.range (old.eps.length - cur.eps.length)) cur
+    simp only [List.length_range] at h1
+    simp only [h1]; omega
+  · intro _ _ _ h; cases h
+  · intro _ _ _ _ _ h; cases h
+  · intro _ _ _ he h
+    simp only at h
+    rw [he h]
+  · intro _ _ _ _ h; cases h
+  · intro _ _ _ _ _ _ h; cases h
+  · intro hl _ _ hO hC s hs _
+    exact C02Pair.len_preserved _ _ _ _ _ _ hO hC hE hl s hs
+
+theorem pairCell_ok_slots (c : Cell) (r : Option (List EP))
+    (hE : ∀ l, r = some l → l.all (·.enabled) = true) (hok : (pairCell c r).ok = true) :
+    (pairCell c r).sb.slots = c.sb.slots := by
+  cases r with
+  | none => rfl
+  | some cur =>
+    simp only [pairCell] at hok ⊢
+    split
+    · rfl
+    · next hs =>
+      simp only [hs, Bool.false_eq_true, if_false] at hok
+      exact cbp_updated_len c.sb.back { c.sb.back with eps := cur } true [] (hE cur rfl) hok
+
+/-! ### every item of the store after a step -/
+
+theorem mids_mem {v : Variant} {s : Sys} {st : Step} {m : Mid} (h : m ∈ mids v s st) :
+    ∃ i c, s[i]? = some c ∧
+      m = (if needReload s st then alignMid v (pairCell c (st.at i)) else pairCell c (st.at i)) := by
+  unfold mids at h
+  split at h
+  · next hr =>
+    obtain ⟨p, hp, rfl⟩ := List.mem_map.1 h
+    obtain ⟨i, c, hc, rfl⟩ := pairAll_mem hp
+    exact ⟨i, c, hc, by simp [hr, Step.at]⟩
+  · next hr =>
+    obtain ⟨i, c, hc, rfl⟩ := pairAll_mem h
+    exact ⟨i, c, hc, by simp [hr, Step.at]⟩
+
+theorem mids_getElem? (v : Variant) (s : Sys) (st : Step) (i : Nat) :
+    (mids v s st)[i]? = s[i]?.map fun c =>
+      (if needReload s st then alignMid v (pairCell c (st.at i)) else pairCell c (st.at i)) := by
+  unfold mids
+  split
+  · simp only [List.getElem?_map, pairAll_getElem?, Step.at, Option.map_map]; rfl
+  · simp only [pairAll_getElem?, Step.at]
+
+theorem step_length (v : Variant) (sh : Bool) (s : Sys) (st : Step) : (step v sh s st).sys.length = s.length := by
+  have : ∀ s r, (pairAll s r).length = s.length := by
+    intro s; induction s with
+    | nil => intro r; simp [pairAll]
+    | cons c cs ih => intro r; cases r <;> simp [pairAll, ih]
+  simp only [step, List.length_map, mids]
+  split <;> simp [this]
+
+/-- **the settings of every backend are those it was created with** -/
+theorem step_cfg (v : Variant) (sh : Bool) (s : Sys) (st : Step) :
+    (step v sh s st).sys.map (fun c => cfgOf c.sb) = s.map (fun c => cfgOf c.sb) := by
+  apply List.ext_getElem?
+  intro i
+  simp only [step, List.getElem?_map, mids_getElem?, Option.map_map]
+  cases s[i]? with
+  | none => rfl
+  | some c =>
+    simp only [Option.map_some, Function.comp, writeCell]
+    split
+    · rw [alignMid_cfg, pairCell_cfg]
+    · rw [pairCell_cfg]
+
+/-- (a) **reload_aligns_all**, on the store: after a step that reloads, EVERY dynamic backend — re-created in
+this step or not — has at least `minFree` empty slots and a positive slot count that is a multiple of the
+increment.  Any state `s`, any step. -/
+theorem reload_aligns_store (sh : Bool) (s : Sys) (st : Step) (hr : (step .real sh s st).reload = true) :
+    ∀ c ∈ (step .real sh s st).sys, c.sb.back.dynUpdate = true →
+      alignPost c.sb.back.eps c.sb.minFree c.sb.block = true := by
+  intro c hc hd
+  simp only [step] at hr hc
+  obtain ⟨m, hm, rfl⟩ := List.mem_map.1 hc
+  obtain ⟨i, c0, _, rfl⟩ := mids_mem hm
+  simp only [hr, if_true, writeCell] at hd ⊢
+  simp only [alignMid] at hd ⊢
+  simp only [reduceCtorEq, false_and, if_false] at hd ⊢
+  rw [alignSB_dyn] at hd
+  exact alignSB_post _ hd
+
+/-- the files show the store: what HAProxy loads at a reload is what the model holds -/
+def FilesOK (s : Sys) : Prop := ∀ c ∈ s, c.file = c.sb.back.eps
+
+theorem boot_filesOK (bs : List SB) : FilesOK (boot bs) := by
+  intro c hc
+  obtain ⟨b, _, rfl⟩ := List.mem_map.1 hc
+  rfl
+
+/-- **files_follow_store** — one step: `BackendChanged` makes writeConfig rewrite the shard of a padded bystander -/
+theorem step_filesOK (sh : Bool) (s : Sys) (st : Step) (h : FilesOK s) : FilesOK (step .real sh s st).sys := by
+  intro c hc
+  simp only [step] at hc
+  obtain ⟨m, hm, rfl⟩ := List.mem_map.1 hc
+  simp only [writeCell]
+  split
+  · rfl
+  · next hcond =>
+    -- the backend is not flagged
+    have hf : m.flag = false := by
+      cases hfl : m.flag with
+      | false => rfl
+      | true =>
+        exfalso; apply hcond
+        have h1 : (mids .real s st).any (·.flag) = true := List.any_eq_true.2 ⟨m, hm, hfl⟩
+        have h2 : (flaggedShards (mids .real s st)).contains m.sb.shard = true := by
+          simp only [flaggedShards, List.contains_iff_mem, List.mem_map, List.mem_filter]
+          exact ⟨m, ⟨hm, hfl⟩, rfl⟩
+        rw [h1, h2]; simp
+    obtain ⟨i, c0, hc0, rfl⟩ := mids_mem hm
+    have hc0m : c0 ∈ s := List.mem_of_getElem? hc0
+    cases hrl : needReload s st
+    all_goals simp only [hrl, if_true, if_false, Bool.false_eq_true] at hf ⊢
+    rotate_left
+    · -- reload: alignSlots left it alone
+      simp only [alignMid, reduceCtorEq, false_and, if_false, decide_true, Bool.true_and, Bool.or_eq_false_iff,
+        bne_eq_false_iff_eq] at hf ⊢
+      obtain ⟨hpf, hsl⟩ := hf
+      obtain ⟨h1, h2⟩ := pairCell_unflagged c0 _ hpf
+      rw [alignSB_eq_of_slots _ hsl, h1, h2]
+      exact h c0 hc0m
+    · obtain ⟨h1, h2⟩ := pairCell_unflagged c0 _ hf
+      rw [h1, h2]
+      exact h c0 hc0m
+
+theorem runFrom_filesOK (sh : Bool) (s : Sys) (steps : List Step) (h : FilesOK s) : FilesOK (runFrom .real sh s steps) := by
+  induction steps generalizing s with
+  | nil => exact h
+  | cons st rest ih => exact ih _ (step_filesOK sh s st h)
+
+/-- **files_follow_store**: at every point of every history the server lines on disk are the model's -/
+theorem files_follow_store (sh : Bool) (bs : List SB) (steps : List Step) : FilesOK (run .real sh bs steps) :=
+  runFrom_filesOK sh _ steps (boot_filesOK bs)
+
+/-- (a) **reload_aligns_all** — for ALL histories: whatever happened before, a step that reloads leaves, in the
+FILES HAProxy loads, every dynamic backend of the store with at least `slots-min-free` empty slots and a
+positive slot count that is a multiple of `backend-server-slots-increment`. -/
+theorem reload_aligns_all (sh : Bool) (bs : List SB) (pre : List Step) (st : Step)
+    (hr : (step .real sh (run .real sh bs pre) st).reload = true) :
+    ∀ c ∈ (step .real sh (run .real sh bs pre) st).sys, c.sb.back.dynUpdate = true →
+      alignPost c.file c.sb.minFree c.sb.block = true ∧ c.file = c.sb.back.eps := by
+  intro c hc hd
+  have hf := step_filesOK sh _ st (files_follow_store sh bs pre) c hc
+  exact ⟨hf ▸ reload_aligns_store sh _ st hr c hc hd, hf⟩
+
+/-- the first update (a reload) too -/
+theorem boot_aligns_all (bs : List SB) : ∀ c ∈ boot bs, c.sb.back.dynUpdate = true →
+    alignPost c.file c.sb.minFree c.sb.block = true := by
+  intro c hc hd
+  obtain ⟨b, _, rfl⟩ := List.mem_map.1 hc
+  simp only [alignSB_dyn] at hd
+  exact alignSB_post b hd
+
+/-! ### (b) dynamic updates never change a slot count -/
+
+theorem wf_at {st : Step} (h : st.wf = true) {i : Nat} {l : List EP} (hl : st.at i = some l) :
+    l.all (·.enabled) = true := by
+  unfold Step.wf at h
+  unfold Step.at at hl
+  rw [List.getD_eq_getElem?_getD] at hl
+  cases hg : st.recr[i]? with
+  | none => rw [hg] at hl; cases hl
+  | some r =>
+    rw [hg] at hl
+    simp only [Option.getD_some] at hl
+    have := List.all_eq_true.1 h r (List.mem_of_getElem? hg)
+    rw [hl] at this
+    exact this
+
+theorem needReload_false {s : Sys} {st : Step} (h : needReload s st = false) :
+    st.other = false ∧ ∀ i c, s[i]? = some c → (pairCell c (st.at i)).ok = true := by
+  unfold needReload at h
+  simp only [Bool.or_eq_false_iff, Bool.not_eq_false'] at h
+  refine ⟨h.1, fun i c hc => ?_⟩
+  have hm : pairCell c (st.at i) ∈ pairAll s st.recr := by
+    apply List.mem_of_getElem? (i := i)
+    rw [pairAll_getElem?, hc]; rfl
+  exact List.all_eq_true.1 h.2 _ hm
+
+theorem needReload_false_of {s : Sys} {st : Step} (ho : st.other = false)
+    (h : ∀ i c, s[i]? = some c → (pairCell c (st.at i)).ok = true) : needReload s st = false := by
+  unfold needReload
+  simp only [ho, Bool.false_or, Bool.not_eq_false']
+  apply List.all_eq_true.2
+  intro p hp
+  obtain ⟨i, c, hc, rfl⟩ := pairAll_mem hp
+  exact h i c hc
+
+/-- (b), one step: an update that does not reload leaves every slot count as it was -/
+theorem noreload_keeps_slots (v : Variant) (sh : Bool) (s : Sys) (st : Step) (hwf : st.wf = true)
+    (h : (step v sh s st).reload = false) : slotsOf (step v sh s st).sys = slotsOf s := by
+  have hr : needReload s st = false := h
+  obtain ⟨_, hok⟩ := needReload_false hr
+  apply List.ext_getElem?
+  intro i
+  simp only [slotsOf, step, List.getElem?_map, mids_getElem?, Option.map_map, hr]
+  cases hc : s[i]? with
+  | none => rfl
+  | some c =>
+    simp only [Option.map_some, Function.comp, writeCell, Bool.false_eq_true, if_false]
+    rw [pairCell_ok_slots c (st.at i) (fun l hl => wf_at hwf hl) (hok i c hc)]
+
+theorem runG_fst (v : Variant) (sh : Bool) (acc : Sys × List Nat) (steps : List Step) :
+    (runG v sh acc steps).1 = runFrom v sh acc.1 steps := by
+  induction steps generalizing acc with
+  | nil => rfl
+  | cons st rest ih => simp only [runG, runFrom, List.foldl_cons] at ih ⊢; exact ih _
+
+/-- (b) **slots_are_last_reload** — at every point of every history the slot count of every backend is what
+the last reload (the first update included) left: dynamic updates never change it. -/
+theorem slots_are_last_reload (v : Variant) (sh : Bool) (bs : List SB) (steps : List Step)
+    (hwf : ∀ st ∈ steps, st.wf = true) :
+    (runG v sh (boot bs, slotsOf (boot bs)) steps).2 = slotsOf (run v sh bs steps) := by
+  have key : ∀ (steps : List Step) (acc : Sys × List Nat), (∀ st ∈ steps, st.wf = true) → acc.2 = slotsOf acc.1 →
+      (runG v sh acc steps).2 = slotsOf (runG v sh acc steps).1 := by
+    intro steps
+    induction steps with
+    | nil => intro acc _ h; exact h
+    | cons st rest ih =>
+      intro acc hwf h
+      simp only [runG, List.foldl_cons]
+      apply ih
+      · exact fun st' h' => hwf st' (List.mem_cons_of_mem _ h')
+      · simp only
+        cases hr : (step v sh acc.1 st).reload with
+        | true => simp
+        | false =>
+          simp only [Bool.false_eq_true, if_false]
+          rw [h, noreload_keeps_slots v sh acc.1 st (hwf st List.mem_cons_self) hr]
+  rw [key steps _ hwf rfl, runG_fst]; rfl
+
+/-! ### (c) what fits stays dynamic -/
+
+/-- `fits` against a slot budget -/
+def fitsIn (n : Nat) (old cur : List EP) : Bool :=
+  cur.length ≤ n && cur.all (fun e => e.enabled && e.label = "") && old.all (fun e => e.label = "") &&
+  !hasDupTarget old && !hasDupTarget cur
+
+theorem fitsIn_length (old cur : List EP) : fitsIn old.length old cur = fits old cur := rfl
+
+/-- one step, any state: endpoint-only changes that fit, of any set of backends, do not reload -/
+theorem fits_stays_dynamic (s : Sys) (st : Step) (ho : st.other = false)
+    (h : ∀ i c cur, s[i]? = some c → st.at i = some cur →
+      c.sb.back.dynUpdate = true ∧ c.sb.back.resolver = false ∧ c.sb.back.cookiePreserve = false ∧
+      fits c.sb.back.eps cur = true) : needReload s st = false := by
+  apply needReload_false_of ho
+  intro i c hc
+  cases hr : st.at i with
+  | none => rfl
+  | some cur =>
+    obtain ⟨hd, hres, hp, hf⟩ := h i c cur hc hr
+    simp only [pairCell]
+    split
+    · rfl
+    · exact fits_no_reload c.sb.back { c.sb.back with eps := cur } hd hres hp hf
+
+/-- (c) **fits_stays_dynamic_history** — in any history, an update that only re-creates dynamic backends (no
+labels, no preserved cookies, no resolver) with endpoint lists that fit in the slots THE LAST RELOAD LEFT them
+(the ghost of `runG`) is applied without reload, all commands being answered OK — for any set of backends at
+once, whichever backend or outside change caused that last reload. -/
+theorem fits_stays_dynamic_history (sh : Bool) (bs : List SB) (pre : List Step) (hwf : ∀ st ∈ pre, st.wf = true)
+    (st : Step) (ho : st.other = false)
+    (h : ∀ i c cur, (run .real sh bs pre)[i]? = some c → st.at i = some cur →
+      c.sb.back.dynUpdate = true ∧ c.sb.back.resolver = false ∧ c.sb.back.cookiePreserve = false ∧
+      fitsIn ((runG .real sh (boot bs, slotsOf (boot bs)) pre).2.getD i 0) c.sb.back.eps cur = true) :
+    (step .real sh (run .real sh bs pre) st).reload = false := by
+  apply fits_stays_dynamic _ st ho
+  intro i c cur hc hr
+  obtain ⟨hd, hres, hp, hf⟩ := h i c cur hc hr
+  refine ⟨hd, hres, hp, ?_⟩
+  rw [slots_are_last_reload .real sh bs pre hwf] at hf
+  have : (slotsOf (run .real sh bs pre)).getD i 0 = c.sb.back.eps.length := by
+    simp [slotsOf, List.getD_eq_getElem?_getD, List.getElem?_map, hc, SB.slots]
+  rw [this, fitsIn_length] at hf
+  exact hf
+
+/-- real (non-empty) endpoints of a backend -/
+def SB.real (b : SB) : Nat := (b.back.eps.filter (!·.isEmpty)).length
+
+theorem real_add_free (b : SB) : b.real + b.free = b.slots := by
+  unfold SB.real SB.free SB.slots
+  induction b.back.eps with
+  | nil => rfl
+  | cons e es ih =>
+    simp only [List.filter_cons, List.length_cons]
+    cases e.isEmpty <;> simp <;> omega
+
+/-- (c) **scale_up_after_reload** — right after ANY step that reloads (another backend overflowed, a global
+changed, …) every dynamic backend — bystanders included — takes a scale-up by up to `slots-min-free` endpoints
+without another reload. -/
+theorem scale_up_after_reload (sh : Bool) (bs : List SB) (pre : List Step) (st1 st2 : Step)
+    (hr : (step .real sh (run .real sh bs pre) st1).reload = true) (ho : st2.other = false)
+    (h : ∀ i c cur, (step .real sh (run .real sh bs pre) st1).sys[i]? = some c → st2.at i = some cur →
+      c.sb.back.dynUpdate = true ∧ c.sb.back.resolver = false ∧ c.sb.back.cookiePreserve = false ∧
+      cur.length ≤ c.sb.real + c.sb.minFree ∧
+      fitsIn cur.length c.sb.back.eps cur = true) :
+    (step .real sh (step .real sh (run .real sh bs pre) st1).sys st2).reload = false := by
+  apply fits_stays_dynamic _ st2 ho
+  intro i c cur hc hat
+  obtain ⟨hd, hres, hp, hlen, hf⟩ := h i c cur hc hat
+  refine ⟨hd, hres, hp, ?_⟩
+  have hpost := reload_aligns_store sh _ st1 hr c (List.mem_of_getElem? hc) hd
+  simp only [alignPost, Bool.and_eq_true, decide_eq_true_eq] at hpost
+  have hrf := real_add_free c.sb
+  have hfree : c.sb.minFree ≤ c.sb.free := hpost.1.1
+  have : cur.length ≤ c.sb.back.eps.length := by unfold SB.slots at hrf; omega
+  simp only [fitsIn, fits, Bool.and_eq_true, decide_eq_true_eq] at hf ⊢
+  exact ⟨⟨⟨⟨this, hf.1.1.1.2⟩, hf.1.1.2⟩, hf.1.2⟩, hf.2⟩
+
+/-! ### (d) identical content never reloads -/
+
+/-- the re-created content is the old effective content: the backend is dropped by `Shrink`, or (dynamic) the
+current endpoints are the enabled old ones up to names and order -/
+def noopRecr (b : SB) (cur : List EP) : Bool :=
+  shrinks true b.back.eps cur ||
+  (b.back.dynUpdate && !b.back.resolver && decide (cur.length ≤ b.back.eps.length) &&
+    !hasDupTarget b.back.eps && !hasDupTarget cur && C02Pair.noopB b.back.eps cur)
+
+/-- one step, any state: no reload and not a single command -/
+theorem noop_step (v : Variant) (sh : Bool) (s : Sys) (st : Step) (ho : st.other = false)
+    (h : ∀ i c cur, s[i]? = some c → st.at i = some cur → noopRecr c.sb cur = true) :
+    (step v sh s st).reload = false ∧ ∀ m ∈ (step v sh s st).mids, m.cmds = [] := by
+  have hpc : ∀ i c, s[i]? = some c → (pairCell c (st.at i)).ok = true ∧ (pairCell c (st.at i)).cmds = [] := by
+    intro i c hc
+    cases hr : st.at i with
+    | none => exact ⟨rfl, rfl⟩
+    | some cur =>
+      have hn := h i c cur hc hr
+      simp only [pairCell]
+      split
+      · exact ⟨rfl, rfl⟩
+      · next hs =>
+        simp only [noopRecr, hs, Bool.false_or, Bool.and_eq_true, decide_eq_true_eq, Bool.not_eq_true'] at hn
+        obtain ⟨⟨⟨⟨⟨hd, hres⟩, hlen⟩, hO⟩, hC⟩, hnb⟩ := hn
+        exact C02Pair.noop_no_reload c.sb.back { c.sb.back with eps := cur } true [] hd hres hlen hO hC hnb
+  have hr : needReload s st = false := needReload_false_of ho fun i c hc => (hpc i c hc).1
+  refine ⟨hr, ?_⟩
+  intro m hm
+  obtain ⟨i, c, hc, rfl⟩ := mids_mem hm
+  simp only [hr, Bool.false_eq_true, if_false]
+  exact (hpc i c hc).2
+
+/-- (d) **noop_history** — at any point of any history, an update that re-creates any set of backends with
+identical effective content neither reloads nor sends a command. -/
+theorem noop_history (sh : Bool) (bs : List SB) (pre : List Step) (st : Step) (ho : st.other = false)
+    (h : ∀ i c cur, (run .real sh bs pre)[i]? = some c → st.at i = some cur → noopRecr c.sb cur = true) :
+    (step .real sh (run .real sh bs pre) st).reload = false ∧
+    ∀ m ∈ (step .real sh (run .real sh bs pre) st).mids, m.cmds = [] :=
+  noop_step .real sh _ st ho h
+
+/-! ### the single-backend definitions are the special case -/
+
+/-- a store of one backend makes the step of the one-backend history mode (`shrinks`, else `updateOne` =
+`checkBackendPair` + `alignSlots` on a reload) -/
+theorem single_backend (f : Flags) (sh : Bool) (shard : Nat) (old file cur : List EP) :
+    let b : SB := { back := { eps := old, dynUpdate := f.dyn, resolver := f.res, cookiePreserve := f.pres,
+                              initialWeight := f.iw }, minFree := f.minfree, block := f.block, shard := shard }
+    let o : Outcome := if shrinks true old cur then ⟨true, old, [], false⟩ else updateOne { f with same := true } old cur []
+    (step .real sh [⟨b, file⟩] { recr := [some cur] }).reload = !o.updated ∧
+    (step .real sh [⟨b, file⟩] { recr := [some cur] }).sys.map (·.sb.back.eps) = [o.cur] ∧
+    (step .real sh [⟨b, file⟩] { recr := [some cur] }).mids.map (·.cmds) = [o.cmds] := by
+  intro b o
+  by_cases hs : shrinks true old cur = true
+  · simp [o, step, mids, needReload, pairAll, pairCell, writeCell, b, hs]
+  · have hnp := C02Pair.no_panic b.back { b.back with eps := cur } true []
+    cases hu : (checkBackendPair b.back { b.back with eps := cur } true []).updated with
+    | true =>
+      simp only [b] at hu hnp
+      simp [o, step, mids, needReload, pairAll, pairCell, writeCell, b, hs, updateOne, hu, hnp]
+    | false =>
+      simp only [b] at hu hnp
+      simp [o, step, mids, needReload, pairAll, pairCell, writeCell, b, hs, updateOne, hu, hnp, alignMid, alignSB]
+
+/-! ### non-vacuity and the seeded variant -/
+
+def exEP (ip : String) : EP :=
+  { name := "", ip := ip, port := 8080, enabled := true, weight := 1, cookie := "", label := "", tref := "", puid := 0 }
+def exSB (ips : List String) (minFree block shard : Nat) : SB :=
+  { back := { eps := fresh (ips.map exEP), dynUpdate := true, resolver := false, cookiePreserve := false },
+    minFree := minFree, block := block, shard := shard }
+def exRecr (ips : List String) : Option (List EP) := some (fresh (ips.map exEP))
+
+/-- two backends `a` (1 endpoint) and `b` (1 endpoint), slots-min-free 2, increment 1, shards 0 and 2 -/
+def exStore : List SB := [exSB ["10.0.0.1"] 2 1 0, exSB ["10.0.1.1"] 2 1 2]
+/-- `a` scales up to 2 endpoints (dynamic); then a global changes (reload, both are bystanders) -/
+def exScaleA : Step := { recr := [exRecr ["10.0.0.1", "10.0.0.2"], none] }
+def exOther : Step := { recr := [none, none], other := true }
+/-- `a` scales up by slots-min-free endpoints -/
+def exScaleA2 : Step := { recr := [exRecr ["10.0.0.1", "10.0.0.2", "10.0.0.3", "10.0.0.4"], none] }
+/-- `b` gets more endpoints than it has slots: a reload caused by `b` with `a` as bystander -/
+def exOverflowB : Step := { recr := [none, exRecr ["10.0.1.1", "10.0.1.2", "10.0.1.3", "10.0.1.4"]] }
+
+/-- non-vacuity of (a), (b), (c): the real code on the history of seeded defect C11e, sharded: the scale-up is
+dynamic and keeps the 3 slots; the reload (global change, or `b` overflowing) pads the bystander `a` to 2 free
+slots again and its file shows it; the next scale-up of `a` by 2 is dynamic. -/
+example :
+    (step .real true (run .real true exStore []) exScaleA).reload = false ∧
+    slotsOf (run .real true exStore [exScaleA]) = [3, 3] ∧
+    (step .real true (run .real true exStore [exScaleA]) exOther).reload = true ∧
+    (run .real true exStore [exScaleA, exOther]).map (fun c => (c.sb.free, c.file.length)) = [(2, 4), (2, 3)] ∧
+    (step .real true (run .real true exStore [exScaleA]) exOverflowB).reload = true ∧
+    (run .real true exStore [exScaleA, exOverflowB]).map (fun c => (c.sb.free, c.file.length)) = [(2, 4), (2, 6)] ∧
+    (step .real true (run .real true exStore [exScaleA, exOther]) exScaleA2).reload = false := by decide +kernel
+
+/-- **the seeded variant (alignSlots over the re-created backends only) breaks (a)**: after the reload the
+bystander `a` is loaded with 1 free slot < slots-min-free = 2, and its next scale-up by 2 needs another reload
+— whether the reload came from outside the backends or from `b`. -/
+theorem seeded_only_recreated_starves_bystander :
+    (step .onlyRecreated false (run .onlyRecreated false exStore [exScaleA]) exOther).reload = true ∧
+    (run .onlyRecreated false exStore [exScaleA, exOther]).map (fun c => (c.sb.back.dynUpdate, c.sb.free, c.sb.minFree)) =
+      [(true, 1, 2), (true, 2, 2)] ∧
+    (run .onlyRecreated false exStore [exScaleA, exOther]).map
+      (fun c => alignPost c.file c.sb.minFree c.sb.block) = [false, true] ∧
+    (step .onlyRecreated false (run .onlyRecreated false exStore [exScaleA, exOther]) exScaleA2).reload = true ∧
+    (run .onlyRecreated false exStore [exScaleA, exOverflowB]).map
+      (fun c => alignPost c.file c.sb.minFree c.sb.block) = [false, true] := by decide +kernel
+
+/-- **without `BackendChanged`** the model pads the bystander but, with backend shards, its file is not
+rewritten: HAProxy loads 3 server lines where the model holds 4 (`files_follow_store` fails) -/
+theorem no_flag_leaves_stale_shard_file :
+    (run .noFlag true exStore [exScaleA, exOther]).map (fun c => (c.sb.slots, c.file.length)) = [(4, 3), (3, 3)] ∧
+    (run .noFlag false exStore [exScaleA, exOther]).map (fun c => (c.sb.slots, c.file.length)) = [(4, 4), (3, 3)] := by
+  decide +kernel
+
+/-- non-vacuity of (d): both backends re-created with the same endpoints (`a` in another order, after a
+dynamic update permuted its slots): hypotheses hold, no reload, no command -/
+example :
+    let s := run .real false exStore [exScaleA]
+    let st : Step := { recr := [exRecr ["10.0.0.2", "10.0.0.1"], exRecr ["10.0.1.1"]] }
+    ((s.zip st.recr).all fun (c, r) => match r with | some cur => noopRecr c.sb cur | none => true) = true ∧
+    (step .real false s st).reload = false ∧ (step .real false s st).mids.map (·.cmds) = [[], []] := by decide +kernel
 
 end HapVerif.C11
